@@ -1234,6 +1234,13 @@ func vfc13RunHistory(s *vfutil.Session, r *vfutil.Rand, nEv int, scripted []stri
 	pending := w.pendingForeign()
 	emittedBefore := len(w.commits)
 	steps := 0
+	unread := 0
+	for i := 0; i < 2; i++ {
+		unread += len(w.sites[i].stream) - w.links[i].pos
+	}
+	// every unread block is read once, and each pending client block adds at
+	// most one more block to read
+	maxSteps := 2*(unread+pending) + 8
 	for {
 		progressed := false
 		for i := 0; i < 2; i++ {
@@ -1247,8 +1254,10 @@ func vfc13RunHistory(s *vfutil.Session, r *vfutil.Rand, nEv int, scripted []stri
 		if !progressed {
 			break
 		}
-		if steps > 100000 {
-			s.Violate("no-quiescence", "links still have work after 100000 steps without client writes", map[string]interface{}{"events": strings.Join(w.evs, " ")})
+		if steps > maxSteps {
+			s.Violate("no-quiescence", fmt.Sprintf("links still have work after %d steps without client writes (%d blocks were unread when the writes stopped)", steps, unread),
+				map[string]interface{}{"events": strings.Join(w.evs, " ")})
+			w.viol = true
 			break
 		}
 	}
